@@ -45,19 +45,19 @@ func sameOut(a, b Out) bool {
 type Action = map[string]interface{}
 
 type ActionSpec struct {
-	ID       string
-	Module   string // e.g. "Cursor": uses CursorMC.cfg (module CursorMC), CursorGen.cfg, CursorTrace.cfg
-	MCCfgs   []string
-	MCThor   []string
-	GenCfgs  []string
-	NSim     [2]int // quick, thorough
-	NRand    [2]int
-	Flags    map[string]interface{}
-	Setup    func(dir string, init Action) []string                    // writes files, returns preamble statements
-	Exec     func(p *sut.Proc, a Action) Out                           // executes one action, returns the observation
-	Random   func(r *core.Run, k int) (init Action, acts []Action)     // direction (B) history number k
-	Sig      func(a Action, exp, obs Out) string                       // structural signature of a mismatch
-	Assume   []string
+	ID        string
+	Module    string // e.g. "Cursor": uses CursorMC.cfg (module CursorMC), CursorGen.cfg, CursorTrace.cfg
+	MCCfgs    []string
+	MCThor    []string
+	GenCfgs   []string
+	NSim      [2]int // quick, thorough
+	NRand     [2]int
+	Flags     map[string]interface{}
+	Setup     func(dir string, init Action) []string                // writes files, returns preamble statements
+	Exec      func(p *sut.Proc, a Action) Out                       // executes one action, returns the observation
+	Random    func(r *core.Run, k int) (init Action, acts []Action) // direction (B) history number k
+	Sig       func(a Action, exp, obs Out) string                   // structural signature of a mismatch
+	Assume    []string
 	MCWorkers int
 }
 
@@ -174,12 +174,21 @@ func runActionCheck(r *core.Run, sp *ActionSpec) {
 		validated++
 		r.Count("tlc_behaviours_replayed", 1)
 		r.Count("replayed_steps", len(behs[i].acts))
+		for k, a := range behs[i].acts {
+			r.Count("step:"+actName(a)+":"+behs[i].exps[k].K, 1)
+		}
 		if i == 0 {
 			r.Sample(map[string]interface{}{"origin": "tlc", "init": behs[i].init, "steps": sampleSteps(behs[i].acts, behs[i].exps)})
 		}
 		if m == nil {
 			continue
 		}
+		// one report per signature: do not re-run the thousands of behaviours that show the same thing
+		sig0 := sp.Sig(m.b.acts[m.i], m.b.exps[m.i], m.obs)
+		if reported[sig0] {
+			continue
+		}
+		reported[sig0] = true
 		// reproduce (a result that changes from run to run may need several attempts; the mismatch that was
 		// observed is a real execution either way, but it is only reported when it can be shown again)
 		var obs2 []Out
@@ -216,6 +225,11 @@ func runActionCheck(r *core.Run, sp *ActionSpec) {
 		core.Parallel(n, 8, func(k int) {
 			hs[k].obs = runHistory(r, sp, hs[k].init, hs[k].acts)
 		})
+		for _, h := range hs {
+			for k, a := range h.acts {
+				r.Count("random-step:"+actName(a)+":"+h.obs[k].K, 1)
+			}
+		}
 		rest := hs
 		for rounds := 0; len(rest) > 0 && rounds < 6; rounds++ {
 			var b strings.Builder
